@@ -39,12 +39,28 @@ PROP = {'streams': [('c09', 2000, 200000)],
               'ctxOK_needed',
               'action_parser_accepts_more',
               'fragment_roundtrip',
-              'namespace_reserved_needed'],
+              'namespace_reserved_needed',
+              'fragment_roundtrip_collected',
+              'collect_rejects_duplicates',
+              'collect_rejects_duplicates_examples',
+              'collect_allows_entity_common_clash',
+              'collect_sorts_example',
+              'toCedar_refuses_iff',
+              'finding_clash_not_refused',
+              'finding_shadow_not_refused',
+              'annotations_roundtrip',
+              'annotations_parser_accepts_more',
+              'annotation_null_becomes_empty',
+              'annotated_namespace_roundtrip',
+              'annotated_namespace_strip',
+              'annotated_fragment_roundtrip'],
  'assumptions': ['theorems cover type expressions, name resolution and the syntax of ALL declaration kinds and whole fragments (standard and enum '
                  'entities, actions with parents / appliesTo / context, common types, namespace blocks: fragment_roundtrip, up to the spelled-out '
-                 'normal form normFragment); annotations, lexing/escapes, the BTreeMap collection of parsed declarations (order, duplicate '
-                 'detection), action attributes, fmt.rs collision checks and ValidatorSchema construction are covered by the four-way differential '
-                 'run only',
+                 'normal form normFragment), the BTreeMap collection of parsed declarations with its duplicate errors (collectFragment; model only, '
+                 'no driver op: the parse-frag correspondence still sorts on both sides and skips duplicates), the refusal cases of fmt.rs '
+                 '(toCedarChecked; model only) and annotation maps on declarations (annotations_roundtrip, annotated_namespace_roundtrip) and on namespace blocks '
+                 '(annotated_fragment_roundtrip, at the level of the parsed items; model only, no driver op); annotations on record '
+                 'attributes, lexing/escapes, action attributes and ValidatorSchema construction are covered by the four-way differential run only',
                  "the model's tokens are produced from Rust's printed text by the harness's lexer (string literals unescaped by the real "
                  'to_unescaped_string)',
                  'resolution is observed end to end: the reply is read off the resolved type of a probe attribute in a synthetic schema']}
@@ -61,7 +77,14 @@ TEXT = ('Lean theorems over a thin model of schema TYPE EXPRESSIONS and NAME RES
  'spelled-out normal form normFragment (fragment_roundtrip): type leaves entity-or-common, parents with explicit Action type, an absent or '
  'HALF-EMPTY appliesTo the empty ApplySpec (the recorded defect, appliesTo_half_empty_lost), a context name a must-be-common reference; the '
  'hypotheses (identifier names, contexts that are records or names, non-reserved common-type and namespace names) are shown necessary. '
- 'Annotations, the BTreeMap collection of parsed declarations (duplicates), lexing and everything else are NOT modelled: they are covered by the four-way differential run '
+ 'The BTreeMap collection of the parsed declarations is modelled after to_json_schema.rs (collectFragment): on fragments with the BTreeMap key '
+ 'invariant print -> parse -> duplicate checks -> collection is normFragment (fragment_roundtrip_collected), a repeated entity / action / common-type '
+ 'name is DuplicateDeclarations, a repeated namespace DuplicateNameSpaces, an entity type and a common type of one name are not a duplicate '
+ '(collect_rejects_duplicates). fmt.rs refuses exactly on an entity/common name collision in a NAMED namespace or a non-record entity shape '
+ '(toCedar_refuses_iff), and the two recorded rebinding defects are not refused (finding_clash_not_refused, finding_shadow_not_refused). Annotation '
+ 'maps print and re-read as themselves with an absent value turned into "" (annotations_roundtrip), also on every declaration of a namespace body '
+ '(annotated_namespace_roundtrip) and of a whole fragment with annotated namespace blocks (annotated_fragment_roundtrip). '
+ 'Annotations on record attributes, lexing and everything else are NOT modelled: they are covered by the four-way differential run '
  'on the implementation (JSON -> schema vs JSON -> to_cedarschema -> schema, Cedar -> schema vs Cedar -> to_json_value -> schema, one further hop '
  'each, equality of ValidatorSchema plus identical policy/request/entity validation verdicts).',
  'proof over a hand-written model of type expressions and name resolution; the full statement (FullStatement) is not proved and is in fact violated '
